@@ -236,3 +236,99 @@ def t_liab_value(world):
 _t04b = tasks
 def tasks(tier):
     return _t04b(tier) + [('asset_value', t_asset_value), ('liab_value', t_liab_value)]
+
+
+# ---------------------------------------------------------------- C04.f: reconcile_emode_configs = intersection over the borrowed banks' configs with the least favourable weights
+def mk_reconcile(K, m):
+    def t(world):
+        eng = world.engine(primary='typecrate', extra=('marginfi',), opaque=[r'EmodeConfig::from_entries$'], max_paths=200000)
+        f = world.fn(r'(^|::)reconcile_emode_configs$', crate='typecrate')
+        ob = Ob(f'C04.f.{K}x{m}', f'reconcile_emode_configs over {K} configs: a collateral tag is in the result iff it is in EVERY config (so a borrowed bank without entries removes every benefit); its init/maint weights and flags are the minimum over the configs; result tags distinct and non-empty',
+                [f.name, f.name + '::{closure#0}', f.name + '::{closure#0}::{closure#0}'],
+                f'{K} configs of any content with at most {m} non-empty entries each (positions 0..{m - 1}; the entry loop skips empty ones), tags distinct inside one config (validated on write: C13); BTreeMap modelled as an insertion-ordered association list, consuming iteration order not modelled (the result is re-sorted by from_entries)')
+        EI = STRUCTS['EmodeEntry']
+        cfgs = [eng.ex.fresh('EmodeConfig', f'cfg{c}') for c in range(K)]
+        def entry(c, j): return eng.get_path(cfgs[c], (('f', 0, '[EmodeEntry; 10]'), ('i', j)))
+        def fld(e, n): return ev(fget(eng, e, 'EmodeEntry', n))
+        tag = [[fld(entry(c, j), 'collateral_bank_emode_tag') for j in range(10)] for c in range(K)]
+        for c in range(K):
+            for j in range(m, 10): eng.ex.assumptions.append(tag[c][j] == 0)
+            for j in range(m):
+                for l in range(j): eng.ex.assumptions.append(z3.Or(tag[c][j] == 0, tag[c][j] != tag[c][l]))
+        # the generic configs iterator `I`: a concrete list of K symbolic configs, with the adaptors a caller-side change could add
+        def mk_iter(i=0): return StructV('cfgiter', eng.ex.fresh_name('cfgiter'), {'__cfgiter': True, '__idx': i, '__pred': None}, lazy=False)
+        def s_into_iter(e, st, c, a):
+            v = a[0]
+            return v if isinstance(v, StructV) and '__cfgiter' in v.fields else mk_iter()
+        def s_filter(e, st, c, a):
+            it = a[0]
+            cf = e.closure_fn(c, st, None)
+            if cf is None: raise Exception('filter closure not found: ' + c)
+            return StructV('cfgiter', e.ex.fresh_name('cfgfilter'), {'__cfgiter': True, '__idx': it.fields['__idx'], '__pred': (cf, a[1]), '__inner_pred': it.fields['__pred']}, lazy=False)
+        def s_next(e, st, c, a):
+            it = e.deref_val(a[0])
+            i = it.fields['__idx']
+            if it.fields['__pred'] is None:
+                if i >= K: return EnumV('Option', 0, {})
+                it.fields['__idx'] = i + 1
+                return EnumV('Option', 1, {1: {0: cfgs[i]}})
+            if it.fields.get('__inner_pred') is not None: raise Exception('nested iterator adaptors on the configs iterator are not modelled')
+            cf, env = it.fields['__pred']
+            two = cf.params[1][1].lstrip().startswith('&&')
+            def argref(j): return RefV(Cell(RefV(Cell(cfgs[j])))) if two else RefV(Cell(cfgs[j]))
+            keep = [e.closure_bool(st, cf, [RefV(Cell(env)), argref(j)]) for j in range(i, K)]
+            alts = []
+            for n_, j in enumerate(range(i, K)):
+                def mk(j):
+                    def g(st_, a_):
+                        e.deref_val(a_[0]).fields['__idx'] = j + 1
+                        return EnumV('Option', 1, {1: {0: cfgs[j]}})
+                    return g
+                alts.append((z3.And([z3.Not(k) for k in keep[:n_]] + [keep[n_]]), mk(j)))
+            alts.append((z3.And([z3.Not(k) for k in keep] + [z3.BoolVal(True)]), lambda st_, a_: EnumV('Option', 0, {})))
+            return E.ForkResult(alts)
+        def s_index(e, st, c, a):
+            arr = e.deref_val(a[0]); n = z3.simplify(a[1].fields[0].e if 0 in a[1].fields else a[1].fields['end'].e)
+            if not z3.is_int_value(n): raise Exception('symbolic result length')
+            items = [e.get_path(arr, (('i', k),)) for k in range(n.as_long())]
+            import copy
+            st.events.append(('emode_buf', [copy.deepcopy(x) for x in items]))
+            return RefV(Cell(StructV('[EmodeEntry]', e.ex.fresh_name('bufslice'), {}, lazy=True)))
+        eng.summaries = [(re.compile(r'^<I as IntoIterator>::into_iter$|^<.*IntoIter.* as IntoIterator>::into_iter$|^<(std::iter::)?Filter<.*> as IntoIterator>::into_iter$'), s_into_iter),
+                         (re.compile(r'IntoIter as Iterator>::filter::<'), s_filter),
+                         (re.compile(r'^<<I as IntoIterator>::IntoIter as Iterator>::next$|^<(std::iter::)?Filter<<I as IntoIterator>::IntoIter, .*> as Iterator>::next$'), s_next),
+                         (re.compile(r'^<\[EmodeEntry; 10\] as Index<RangeTo<usize>>>::index$'), s_index)]
+        res = eng.run_fn(f, [StructV('I', 'configs', {'__cfgiter': True, '__idx': 0, '__pred': None}, lazy=False)])
+        ob.paths = len(res)
+        T = z3.Int('T')
+        n_ok = 0
+        for r in returned(res):
+            bufs = [e for e in flat_events(r['events']) if e[0] == 'emode_buf']
+            if len(bufs) != 1: ob.fail(f'{len(bufs)} result buffers on a returning path'); continue
+            if ob.witness(eng, r, []) is False: continue
+            n_ok += 1
+            buf = bufs[0][1]
+            h = [T >= 1, T <= 65535]
+            in_cfg = [z3.Or([tag[c][j] == T for j in range(m)]) for c in range(K)]
+            in_all = z3.And(in_cfg)
+            btag = [fld(b, 'collateral_bank_emode_tag') for b in buf]
+            in_buf = z3.Or([bt == T for bt in btag] + [z3.BoolVal(False)])
+            ob.prove(eng, r, h, in_buf == in_all, 'tag in the result <=> tag present in every config', role='intersection')
+            ob.prove(eng, r, [], z3.And([bt != 0 for bt in btag] + [btag[k] != btag[l] for k in range(len(buf)) for l in range(k)] + [z3.BoolVal(True)]), 'result tags non-empty and pairwise distinct', role='distinct')
+            for fname in ('asset_weight_init', 'asset_weight_maint', 'flags'):
+                for k, b in enumerate(buf):
+                    v = fld(b, fname)
+                    srcs = [(tag[c][j] == T, fld(entry(c, j), fname)) for c in range(K) for j in range(m)]
+                    le_all = z3.And([z3.Implies(cond, v <= x) for cond, x in srcs])
+                    attained = z3.Or([z3.And(cond, v == x) for cond, x in srcs])
+                    ob.prove(eng, r, h + [btag[k] == T], z3.And(le_all, attained), f'{fname} of a result entry == minimum over the configs\' entries with that tag', role='min-' + fname)
+        ob.notes.append(f'{n_ok} returning paths')
+        ob.need_witness()
+        return [ob]
+    return t
+
+
+_t04c = tasks
+def tasks(tier):
+    shapes = [(1, 2), (2, 2), (3, 1)] if tier == 'quick' else [(1, 3), (2, 2), (2, 3), (3, 2), (4, 1)]
+    return _t04c(tier) + [(f'reconcile{K}x{m}', mk_reconcile(K, m)) for K, m in shapes]
